@@ -31,7 +31,7 @@ Print Assumptions C14_variance_is_central_moment.
 (** invalid statistics never read as numbers: NaN in, NaN out, for every derived quantity *)
 Theorem C14_invalid_reads_nan : forall s, st_sum s = NaN -> st_sum2 s = NaN -> st_weight s = NaN ->
   st_mean s = NaN /\ st_var s = NaN.
-Proof. intros s A B C. unfold st_mean, st_var. rewrite A, B, C. split; reflexivity. Qed.
+Proof. intros s A B C. unfold st_mean, st_var. rewrite A. split; reflexivity. Qed.
 Print Assumptions C14_invalid_reads_nan.
 
 Theorem C14_empty : st_weight empty_stats = Fin 0 /\ st_mean empty_stats = NaN.
